@@ -211,7 +211,7 @@ class TraceCorr:
             allops = [l.strip() for l in open(ops) if l.strip()]
             case = core.case_of_line(allops, min(done, len(allops) - 1))
             res.violation("implementation crashed or hung (exit %d) while executing the case: %s" % (rc, log[-600:]),
-                          {"harness": self.harness, "area": self.area, "mode": "crash", "ops": case,
+                          {"harness": self.harness, "area": self.area, "evinst": self.evinst, "mode": "crash", "ops": case,
                            "log": log[-3000:]}, concrete=True)
             return False
         try:
@@ -266,7 +266,7 @@ class TraceCorr:
             if bad_m is not None:
                 res.obligation(cname, False)
             res.violation("the implementation disagrees with the abstract specification: " + msg,
-                          {"harness": self.harness, "area": self.area, "mode": "spec", "ops": small,
+                          {"harness": self.harness, "area": self.area, "evinst": self.evinst, "mode": "spec", "ops": small,
                            "trace": final_trace, "verdict": final_verdict, "first_message": msg,
                            "seed": res.seed, "broken_obligation": getattr(res, "broken_proof", None)},
                           concrete=True)
@@ -282,7 +282,7 @@ class TraceCorr:
             res.obligation(cname, False)
             res.violation("model and implementation diverge (%s) but the abstract specification accepts every "
                           "observed call: the theorems no longer speak about this code" % msg,
-                          {"harness": self.harness, "area": self.area, "mode": "model", "ops": small,
+                          {"harness": self.harness, "area": self.area, "evinst": self.evinst, "mode": "model", "ops": small,
                            "trace": final_trace, "verdict": final_verdict, "broken": cname,
                            "first_message": msg, "seed": res.seed}, concrete=False)
             return False
@@ -304,7 +304,7 @@ def replay(work, path):
         print(json.dumps(rec, indent=1, ensure_ascii=False))
         print("replay: this record names a broken obligation, there is no concrete input to re-run")
         return 1
-    binp, blog = work.build(rec["harness"])
+    binp, blog = work.build(rec["harness"], evinst=bool(rec.get("evinst")))
     if binp is None:
         print(blog)
         return 1
